@@ -333,3 +333,74 @@ func TestPerValueShaping(t *testing.T) {
 }
 
 var _ = fmt.Sprint
+
+// Large parameter tables: "traffic on one value never changes the decision for another value while the configured
+// parameter capacity is not exceeded" for capacities beyond the built-in defaults (4000 per second of duration,
+// 20000 at most). Every value spends its single token at one instant; asked again inside the same duration each value
+// must be refused (reject mode) or queued behind its own first request (throttling) - never treated as first seen.
+func TestLargeCapacity(t *testing.T) {
+	hx.Check(t, hx.N{Quick: 24, Thorough: 480}, func(t *rapid.T, c *hx.Case) {
+		d := int64(rapid.IntRange(1, 2).Draw(t, "D"))
+		def := 4000 * d
+		var capacity int64
+		switch rapid.IntRange(0, 5).Draw(t, "capKind") {
+		case 0: // beyond the absolute default maximum
+			capacity = 20000 + int64(rapid.IntRange(1, 400).Draw(t, "over"))
+		case 1: // not configured: the documented default applies
+			capacity = 0
+		default: // configured above the duration-derived default
+			capacity = def + int64(rapid.IntRange(1, 1500).Draw(t, "over"))
+		}
+		eff := capacity
+		if eff == 0 {
+			eff = def
+		}
+		n := int(eff) - rapid.IntRange(0, 300).Draw(t, "below") // live values: at most the capacity in force
+		if capacity > def && n <= int(def) {
+			n = int(def) + 1
+		}
+		throttling := rapid.Bool().Draw(t, "throttling")
+		r := &hotspot.Rule{ID: "big", Resource: "h", MetricType: hotspot.QPS, ParamIndex: 0, Threshold: 1, DurationInSec: d, ParamsMaxCapacity: capacity, SpecificItems: map[interface{}]int64{}}
+		if throttling {
+			r.ControlBehavior = hotspot.Throttling
+			r.MaxQueueingTimeMs = 0
+		}
+		t0 := hx.Epoch + uint64(rapid.IntRange(0, 999).Draw(t, "t0"))
+		hx.Reset(t0)
+		if _, err := hotspot.LoadRules([]*hotspot.Rule{r}); err != nil || len(hotspot.GetRulesOfResource("h")) != 1 {
+			t.Fatalf("LoadRules: %v", err)
+		}
+		c.Op("capacity=%d (default %d) D=%ds throttling=%v live values=%d", capacity, def, d, throttling, n)
+		for v := 0; v < n; v++ {
+			e, blk := sentinel.Entry("h", sentinel.WithArgs(v))
+			if blk != nil {
+				t.Fatalf("first request of value %d was rejected", v)
+			}
+			e.Exit()
+		}
+		hx.C.AddMs(uint64(rapid.IntRange(0, 900).Draw(t, "dt")))
+		order := rapid.SampledFrom([]string{"same", "reverse"}).Draw(t, "order")
+		again := 0
+		for k := 0; k < n; k++ {
+			v := k
+			if order == "reverse" {
+				v = n - 1 - k
+			}
+			e, blk := sentinel.Entry("h", sentinel.WithArgs(v))
+			if blk == nil {
+				e.Exit()
+				again++
+				if again == 1 {
+					c.Op("value %d admitted again", v)
+				}
+			}
+		}
+		c.Op("second round: %d of %d values admitted again", again, n)
+		if again > 0 {
+			t.Fatalf("%d of %d values were admitted a second time inside one duration (threshold 1, no burst, queueing 0) although the %d live values do not exceed the parameter capacity %d in force (configured %d, default for %d s = %d): their metering state was dropped", again, n, n, eff, capacity, d, def)
+		}
+		c.ClassIf(capacity > def, "capacity-above-duration-default")
+		c.ClassIf(capacity > 20000, "capacity-above-20000")
+		c.NonTrivial()
+	})
+}
